@@ -4,3 +4,4 @@ INVARIANT Emit
 CHECK_DEADLOCK FALSE
 CONSTANTS
   Depth2 = FALSE
+  NonAscii = FALSE
